@@ -277,8 +277,12 @@ func main() {
 				Human: map[string]any{"key": key, "s": s}})
 		}
 	}
+	// round 11: constructors, getters, database / text / YAML / GQL codecs, ConcatenateJSON
+	// (last, so that the case ids and the PRNG stream of the earlier cases stay as they were)
+	ambiguous := extCases(w, r, cfg.Count(1, 10), !cfg.Quick)
 	err := w.Close(emit.Meta{Property: "C12", Tier: cfg.Tier, Seed: cfg.Seed,
-		Rule: "codec: generated values of the 8 claim/response types (custom keys colliding with registered names, nested actor chains of depth 0-4 with repeated parties / identical sub-chains / shared maps and shared *ActorClaims objects (acyclic), custom values of library types, nil/empty slices and maps; a quarter marshalled twice; fixed cases beyond 1 KiB / 4 KiB) through json.Marshal/Unmarshal of the real types, every library error or panic being an observed outcome; valid documents with members replaced by alternative/malformed forms fed to the real decoders (and re-marshalled when accepted); stand-alone Audience/Time/Bool/SpaceDelimitedArray/Locales decoders; the schema read off the struct tags. seal/open cases: random keys (valid and invalid lengths), IVs, plaintexts around block boundaries; arbitrary/tampered strings to DecryptAES. Non-trivial = model path class != 0 (anything but a wrong-key-length seal or a non-object document); distinct = distinct (input hash, path class).",
+		Extra: map[string]any{"clock_ambiguous": ambiguous},
+		Rule: "codec: generated values of the 8 claim/response types (custom keys colliding with registered names, nested actor chains of depth 0-4 with repeated parties / identical sub-chains / shared maps and shared *ActorClaims objects (acyclic), custom values of library types, nil/empty slices and maps; a quarter marshalled twice; fixed cases beyond 1 KiB / 4 KiB) through json.Marshal/Unmarshal of the real types, every library error or panic being an observed outcome; valid documents with members replaced by alternative/malformed forms fed to the real decoders (and re-marshalled when accepted); stand-alone Audience/Time/Bool/SpaceDelimitedArray/Locales decoders; the schema read off the struct tags. seal/open cases: random keys (valid and invalid lengths), IVs, plaintexts around block boundaries; arbitrary/tampered strings to DecryptAES. ext (round 11): NewLogoutTokenClaims on generated arguments (zero / sub-second / zoned expirations, positive and negative skews; clock bracket t0/t1, ambiguous cases dropped) then Marshal/Unmarshal; GetUserInfo of generated ID-token values; GetAddress; SpaceDelimitedArray.Scan of nil / string / []byte / Stringer / int / bool / float and Value->Scan; FromTime / AsTime / NowTime around the zero time and the epoch; RequestObject / JWTTokenRequest getters; every codec of ApplicationType / AccessTokenType (String, IsA, Marshal* for numbers in and out of range; <Type>String, UnmarshalText/JSON/YAML/GQL, Scan for declared names, case variants incl. U+0130 / U+212A / U+017F, near misses, wrong dynamic types, from several initial values); ConcatenateJSON on compactly rendered objects (shared keys, empty sides) and on texts that are not such objects. Non-trivial = model path class != 0 (anything but a wrong-key-length seal or a non-object document); distinct = distinct (input hash, path class).",
 	})
 	if err != nil {
 		fmt.Fprintln(os.Stderr, err)
